@@ -334,6 +334,9 @@ def g_polygons3d(ctx, rng, i):
     off = on[:: max(1, len(on) // 6)] + np.append(nrm, 0)
     _try(poly.contains, g.PointCollection(on))
     _try(poly.contains, g.PointCollection(off))
+    # points in the plane and points above / below them in one collection (the shadows of the latter fall inside and outside the polygon)
+    both = np.concatenate([on, on + np.append(nrm, 0), on - 2 * np.append(nrm, 0)])
+    _try(poly.contains, g.PointCollection(both[rng.permutation(len(both))]))
     _try(poly.contains, g.Point(on[int(rng.integers(0, len(on)))]))
     _try(poly.contains, g.Point(off[0]))
     # moved out of its plane after it has been queried
